@@ -241,7 +241,9 @@ PROPS["C10"] = {
              "file-system step, may kill -9 any process at any yield point and may cancel a waiting process's context. dfs: bounded exhaustive enumeration of ALL 2-process schedules up to D scheduling decisions with <=1 crash, for each initial lock file in {absent, empty, garbage, dead PID, live unrelated PID} "
              "(D=8 quick, D=12 thorough; stateless search, each schedule re-executed from scratch). random: 2-3 processes, rapid-drawn schedules of up to 40 decisions, <=2 crashes, <=1 cancel, optional warm-up that lets one process reach the critical section first. "
              "Oracles: never two live processes between Lock()==nil and Unlock(); Lock never returns an error; while one process holds, a newcomer given 12 steps does not acquire; after the schedule the survivors finish under round-robin stepping and each acquires; a fresh process then acquires within 60 steps. "
-             "Non-trivial = a process observed the lock file between another's create and PID write, or removed it after it changed, or a holder/contender crashed, or a waiter was cancelled; distinct by full case."),
+             "binary: 2-3 real `grog build //...` processes in one generated workspace (slow commands, 1-4 workers) started at generated offsets, one third of them killed (SIGKILL to the process group) or interrupted (SIGINT) after 100-1500 ms; every command appends its grog's pid to a trace. "
+             "Oracles: no command of one grog process starts between the start and the end line of a command of another (append order, no clock); a process that was not signalled finishes by itself with exit 0; a further build afterwards succeeds with byte-exact outputs. "
+             "Non-trivial = a process observed the lock file between another's create and PID write, or removed it after it changed, or a holder/contender crashed, or a waiter was cancelled; binary: at least two processes and commands were executed; distinct by full case."),
     "assumptions": [
         "the controller serialises steps: file-system calls are atomic and never truly simultaneous (the property's own quantifier is over interleavings of individual file-system operations)",
         "PID reuse by unrelated processes is outside the model; a lock file naming a live unrelated process legitimately blocks (only safety is checked for that initial state)",
@@ -257,6 +259,9 @@ PROPS["C10"] = {
         {"name": "random", "pkg": "c10", "test": "TestRandom",
          "quick": {"shards": 4, "checks": 400, "cap": 1200, "shrinktime": "60s"},
          "thorough": {"shards": 12, "checks": 24000, "cap": 7200, "shrinktime": "120s"}},
+        {"name": "binary", "pkg": "c10", "test": "TestBinary", "binary": True,
+         "quick": {"shards": 12, "checks": 36, "cap": 1200, "shrinktime": "60s"},
+         "thorough": {"shards": 32, "checks": 1600, "cap": 7200, "shrinktime": "120s"}},
     ],
 }
 
